@@ -110,7 +110,11 @@ PLAIN = [("km", "m", "valid"), ("m", "km", "valid"), ("degC", "K", "valid"), ("d
          ("km", "m**", "unparsable-unit"), ("degC", "m", "incommensurable")]
 BASE = [("km", None, "valid"), ("km", "cgs", "valid"), ("erg/s", "mks", "valid"), ("degF", "mks", "valid"), ("mile", "imperial", "valid"),
         ("A", "cgs", "valid"), ("statC", "mks", "valid"), ("C*m", "cgs", "irreducible"), ("V/m", "cgs", "irreducible"),
-        ("km", "nope", "unknown-system"), ("Msun/pc**3", "galactic", "valid")]
+        ("km", "nope", "unknown-system"), ("Msun/pc**3", "galactic", "valid"),
+        # conversion factor exactly 1, with and without an offset (a result that IS the input's buffer would be
+        # written by the offset step: seeded change C18-c)
+        ("degC", None, "valid"), ("degC", "mks", "valid"), ("degC", "cgs", "valid"), ("m", "mks", "valid"), ("K", None, "valid"),
+        ("g", "cgs", "valid")]
 EQUIV = [("K", "J", "thermal", {}, "valid"), ("J", "K", "thermal", {}, "valid"), ("g", "erg", "mass_energy", {}, "valid"),
          ("g/cm**3", "cm**-3", "number_density", {"mu": 1.4}, "valid"), ("Hz", "angstrom", "spectral", {}, "valid"),
          ("km/s", "dimensionless", "lorentz", {}, "valid"), ("K", "km/s", "sound_speed", {"gamma": 1.4}, "valid"),
